@@ -354,3 +354,66 @@ class FileInit(Contract):
 
 
 CONTRACTS.append(FileInit())
+
+
+# ---------------------------------------------------------------------------------------------
+class TextSegmentEarlyExits(Contract):
+    """C14/C16 (early exits only): a supplemental segment without delimiter, a segment shorter than declared and a primary
+    segment that does not start with the delimiter are refused; an empty declared extent gives ({}, None).
+    The backward delimiter-run scan itself (rfind / split / while loop over run parities) needs an induction over the run
+    structure of strings that neither solver carries: outside the prover (stated); decided by the bounded stand-in."""
+    target = 'FlowCal.io.read_fcs_text_segment'
+    property_ids = ('C14', 'C16')
+    frame = False
+
+    def cases(self):
+        return [{'label': 'supplemental-without-delimiter'}, {'label': 'segment-shorter-than-declared'},
+                {'label': 'empty-extent'}, {'label': 'primary-not-starting-with-delimiter'}]
+
+    def setup(self, I, case):
+        c = I.ctx
+        buf = make_file(I, 'f')
+        fm = buf.payload
+        begin, end = c.fresh_int('begin'), c.fresh_int('end')
+        c.assume(z3.And(begin >= 0, end >= 0))
+        aux = {'fm': fm, 'begin': begin, 'end': end}
+        kw = {'buf': buf, 'begin': SV(begin, 'int'), 'end': SV(end, 'int')}
+        lab = case['label']
+        if lab == 'supplemental-without-delimiter':
+            kw.update({'delim': None, 'supplemental': True})
+        elif lab == 'segment-shorter-than-declared':
+            c.assume(z3.And(end + 1 - begin > 0, fm.size - begin < end + 1 - begin))
+            kw.update({'delim': SV(c.fresh_str('delim'), 'str'), 'supplemental': c.choice(2, 'supplemental') == 1})
+        elif lab == 'empty-extent':
+            c.assume(end + 1 - begin == 0)
+            kw.update({'delim': SV(c.fresh_str('delim'), 'str'), 'supplemental': c.choice(2, 'supplemental') == 1})
+        else:
+            d = c.fresh_str('delim')
+            c.assume(z3.Length(d) == 1)
+            aux['delim'] = d
+            c.assume(z3.And(end + 1 - begin > 0, fm.size - begin >= end + 1 - begin))
+            from pyvc.iomodel import CONTENT
+            txt = CONTENT(z3.IntVal(id(fm) % 100000), begin, end + 1 - begin)
+            c.assume(z3.SubString(txt, 0, 1) != d)
+            kw.update({'delim': SV(d, 'str'), 'supplemental': False})
+        return [], kw, aux
+
+    def expected_outcomes(self, case):
+        return ['return'] if case['label'] == 'empty-extent' else ['raise:ValueError']
+
+    def check(self, I, case, aux, out):
+        P = I.ctx.prove
+        lab = case['label']
+        if lab == 'empty-extent':
+            ok = out.kind == 'return' and isinstance(out.value, Seq) and len(out.value.items) == 2
+            P('empty-extent-gives-an-empty-dictionary-and-no-delimiter', ok and hasattr(out.value.items[0], 'keys') and len(out.value.items[0].keys) == 0
+              and out.value.items[1] is None)
+            return
+        if lab == 'primary-not-starting-with-delimiter':
+            # the only way to return or to reach the scan is a first character equal to the delimiter
+            P('primary-segment-not-starting-with-the-delimiter-refused-with-ValueError', out.raised('ValueError'))
+            return
+        P('refused-with-ValueError', out.raised('ValueError'))
+
+
+CONTRACTS.append(TextSegmentEarlyExits())
